@@ -20,14 +20,18 @@
 (*                 (neither handed over nor acknowledged -- it will be     *)
 (*                 retransmitted).                                         *)
 (* The wrapped actors are scripted: actor i sends sys.scripts[i+1] at      *)
-(* start and records (src, m) for everything it is handed.                 *)
+(* start, records (src, m) for everything it is handed, and answers a      *)
+(* handed message `on' with the sends listed for it in sys.replies[i+1]    *)
+(* (so that messages are also sent long after start, over an idle link).   *)
+(* It keeps its own log of what it sent.                                   *)
 (*                                                                         *)
-(* State of actor i: [next, pending, last, handed]                         *)
+(* State of actor i: [next, pending, last, handed, sent]                   *)
 (*   next    PerDst: function dst -> next sequencer (set of <<dst, n>>);   *)
 (*           else the single counter                                       *)
 (*   pending set of [seq, dst, m]                                          *)
 (*   last    set of <<src, seq>>                                           *)
 (*   handed  sequence of [src, m]                                          *)
+(*   sent    sequence of [dst, m]: the wrapped actor's own log of its sends *)
 (* Messages: [k |-> "deliver", seq, m] / [k |-> "ack", seq, m |-> 0].      *)
 (* The network operators come from ActorSystem.tla.                        *)
 (***************************************************************************)
@@ -55,7 +59,7 @@ Bump(L, dst) == IF PerDst THEN [L EXCEPT !.next = {p \in @ : p[1] # dst} \cup {<
 (* process_output: one Send of the wrapped actor *)
 LinkSend(L, dst, m) ==
   LET q == NextFor(L, dst) IN
-  [L |-> Bump([L EXCEPT !.pending = @ \cup {[seq |-> q, dst |-> dst, m |-> m]}], dst),
+  [L |-> Bump([L EXCEPT !.pending = @ \cup {[seq |-> q, dst |-> dst, m |-> m]}, !.sent = Append(@, [dst |-> dst, m |-> m])], dst),
    env |-> [dst |-> dst, msg |-> DeliverMsg(q, m)]]
 
 RECURSIVE SendScript(_, _, _)
@@ -65,10 +69,18 @@ SendScript(L, script, out) ==
        SendScript(r.L, Tail(script), Append(out, r.env))
 
 StartLocal(sys, i) ==
-  SendScript([next |-> IF PerDst THEN {} ELSE 1, pending |-> {}, last |-> {}, handed |-> <<>>], sys.scripts[i + 1], <<>>)
+  SendScript([next |-> IF PerDst THEN {} ELSE 1, pending |-> {}, last |-> {}, handed |-> <<>>, sent |-> <<>>], sys.scripts[i + 1], <<>>)
 
-(* a handler result: [touch, L, sends (sequence of [dst, msg]), timers set] *)
-OnDeliver(L, src, msg, ignored) ==
+(* what the wrapped actor i sends when it is handed (and does not ignore) message value m: a sequence of [dst, msg] *)
+RepliesFor(sys, i, m) ==
+  IF "replies" \in DOMAIN sys
+  THEN LET rs == SelectSeq(sys.replies[i + 1], LAMBDA r : r.on = m)
+       IN  [k \in 1..Len(rs) |-> [dst |-> rs[k].dst, msg |-> rs[k].msg]]
+  ELSE <<>>
+
+(* a handler result: [touch, L, sends (sequence of [dst, msg]), timers set];  `replies' = what the wrapped actor
+   sends in answer (empty when it ignores the message) *)
+OnDeliver(L, src, msg, ignored, replies) ==
   IF msg.k = "ack"
   THEN \* state.to_mut() is always taken: an Ack is a transition even when nothing is pending
        [touch |-> TRUE,
@@ -78,9 +90,9 @@ OnDeliver(L, src, msg, ignored) ==
            ack == <<[dst |-> src, msg |-> AckMsg(msg.seq)]>>
            \* a wrapped actor that ignores the message (no state change, no output) was still handed the message:
            \* the sequencer advances (its successor is only accepted afterwards), nothing is recorded
-           hand == [touch |-> TRUE,
-                    L |-> SetLast(IF ignored THEN L ELSE [L EXCEPT !.handed = Append(@, [src |-> src, m |-> msg.m])], src, msg.seq),
-                    sends |-> ack]
+           out  == SendScript(SetLast(IF ignored THEN L ELSE [L EXCEPT !.handed = Append(@, [src |-> src, m |-> msg.m])], src, msg.seq),
+                              IF ignored THEN <<>> ELSE replies, <<>>)
+           hand == [touch |-> TRUE, L |-> out.L, sends |-> ack \o out.out]
        IN IF msg.seq <= last THEN [touch |-> FALSE, L |-> L, sends |-> ack]
           ELSE IF ~PerDst THEN hand
           ELSE IF msg.seq = last + 1 THEN hand
@@ -115,7 +127,7 @@ OEnabled(sys, s) ==
 
 OIgnored(sys, s, a) ==
   CASE a.k = "deliver" ->
-         LET h == OnDeliver(s.actors[a.dst + 1], a.src, a.msg, Ignores(sys, a.dst, a.msg)) IN ~h.touch /\ h.sends = <<>> /\ sys.network # "ordered"
+         LET h == OnDeliver(s.actors[a.dst + 1], a.src, a.msg, Ignores(sys, a.dst, a.msg), RepliesFor(sys, a.dst, a.msg.m)) IN ~h.touch /\ h.sends = <<>> /\ sys.network # "ordered"
     [] a.k = "timeout" -> s.actors[a.id + 1].pending = {}          \* only the timer would be re-armed
     [] OTHER -> FALSE
 
@@ -123,7 +135,7 @@ OApply(sys, s, a) ==
   CASE a.k = "drop" -> [s EXCEPT !.net = DropNet(@, Env(a.src, a.dst, a.msg))]
     [] a.k = "deliver" ->
          LET i == a.dst
-             h == OnDeliver(s.actors[i + 1], a.src, a.msg, Ignores(sys, i, a.msg))
+             h == OnDeliver(s.actors[i + 1], a.src, a.msg, Ignores(sys, i, a.msg), RepliesFor(sys, i, a.msg.m))
          IN [s EXCEPT !.net = SendAllFrom(DeliverNet(@, Env(a.src, a.dst, a.msg)), i, h.sends),
                       !.actors[i + 1] = h.L]
     [] a.k = "timeout" ->
@@ -133,9 +145,10 @@ OApply(sys, s, a) ==
 -----------------------------------------------------------------------------
 (* C16 as state predicates (evaluated on the spec's states by TLC and, by the judge, on every recorded
    state of the real model).  Message values are unique per sender. *)
-SentTo(sys, snd, rcv) ==
-  LET sc == sys.scripts[snd + 1]
-      RECURSIVE F(_) F(q) == IF q = <<>> THEN <<>> ELSE (IF Head(q).dst = rcv THEN <<Head(q).msg>> ELSE <<>>) \o F(Tail(q))
+(* what snd's wrapped actor has sent to rcv so far, by its own log *)
+SentTo(s, snd, rcv) ==
+  LET sc == s.actors[snd + 1].sent
+      RECURSIVE F(_) F(q) == IF q = <<>> THEN <<>> ELSE (IF Head(q).dst = rcv THEN <<Head(q).m>> ELSE <<>>) \o F(Tail(q))
   IN F(sc)
 HandedFrom(s, rcv, snd) ==
   LET hd == s.actors[rcv + 1].handed
@@ -144,15 +157,15 @@ HandedFrom(s, rcv, snd) ==
 IsPrefixOf(a, b) == Len(a) <= Len(b) /\ \A i \in 1..Len(a) : a[i] = b[i]
 
 (* handed over exactly once and in order: what was handed over is a prefix of what was sent to that peer *)
-Recorded(sys, snd, rcv) == LET q == SentTo(sys, snd, rcv)
+Recorded(sys, s, snd, rcv) == LET q == SentTo(s, snd, rcv)
                               RECURSIVE F(_) F(x) == IF x = <<>> THEN <<>> ELSE (IF IgnoresVal(sys, rcv, Head(x)) THEN <<>> ELSE <<Head(x)>>) \o F(Tail(x))
                           IN F(q)
-PrefixOK(sys, s) == \A snd, rcv \in OIds(sys) : IsPrefixOf(HandedFrom(s, rcv, snd), Recorded(sys, snd, rcv))
+PrefixOK(sys, s) == \A snd, rcv \in OIds(sys) : IsPrefixOf(HandedFrom(s, rcv, snd), Recorded(sys, s, snd, rcv))
 (* a message is never acknowledged (dropped from pending) before it was handed over *)
 AckedImpliesHanded(sys, s) ==
   \A snd, rcv \in OIds(sys) :
-     \A i \in DOMAIN SentTo(sys, snd, rcv) :
-        LET m == SentTo(sys, snd, rcv)[i] IN
+     \A i \in DOMAIN SentTo(s, snd, rcv) :
+        LET m == SentTo(s, snd, rcv)[i] IN
         (~\E p \in s.actors[snd + 1].pending : p.dst = rcv /\ p.m = m) =>
            /\ IgnoresVal(sys, rcv, m) \/ \E j \in DOMAIN HandedFrom(s, rcv, snd) : HandedFrom(s, rcv, snd)[j] = m
            \* ... and the receiver's sequencer has moved past it (messages to one peer are numbered 1, 2, ... in send order),
@@ -161,13 +174,15 @@ AckedImpliesHanded(sys, s) ==
 (* once all retransmissions are acknowledged the two sequences are equal *)
 CompleteOK(sys, s) ==
   (\A i \in OIds(sys) : s.actors[i + 1].pending = {}) =>
-     \A snd, rcv \in OIds(sys) : HandedFrom(s, rcv, snd) = Recorded(sys, snd, rcv)
+     \A snd, rcv \in OIds(sys) : HandedFrom(s, rcv, snd) = Recorded(sys, s, snd, rcv)
 
 AbsLocal(j) ==
-  [next |-> 0,    \* the sequencer state is not compared (its representation differs between the variants)
+  [next |-> IF PerDst /\ "next_seq" \in DOMAIN j THEN {<<j.next_seq[i].dst, j.next_seq[i].n>> : i \in DOMAIN j.next_seq} ELSE 0,
    pending |-> {[seq |-> j.pending[i].seq, dst |-> j.pending[i].dst, m |-> j.pending[i].m] : i \in DOMAIN j.pending},
    last |-> {<<j.last[i].src, j.last[i].seq>> : i \in DOMAIN j.last},
-   handed |-> j.handed]
+   handed |-> j.handed,
+   sent |-> j.sent]
 OAbs(j) == [Abs(j) EXCEPT !.actors = [i \in DOMAIN j.actors |-> AbsLocal(j.actors[i])]]
-NoNext(s) == [s EXCEPT !.actors = [i \in DOMAIN s.actors |-> [s.actors[i] EXCEPT !.next = 0]]]
+\* (the as-found variant's single counter has no counterpart in the repaired code: not compared there)
+NoNext(s) == IF PerDst THEN s ELSE [s EXCEPT !.actors = [i \in DOMAIN s.actors |-> [s.actors[i] EXCEPT !.next = 0]]]
 =============================================================================
